@@ -30,8 +30,7 @@ EXCLUDED_ARG_CLASSES = [
     "RANDOM_ORDER/UNORDERED iteration of a branch, visit() with methods other than "
     "pre/post/level, skip signals in post-order, visit callbacks returning True",
     "unhashable data without explicit data_id",
-    "deep copy of a branch into its own sub-branch",
-    "add(<empty tree>) and add(<tree> to itself)",
+
     "typed node/tree as source for an untyped tree",
     "source tree whose class is not (a subclass of) the target tree's class",
     "keep_children=True together with with_clones=True when members are nested or "
